@@ -179,10 +179,11 @@ func (c *conn) writeloop() {
 				if errors.Is(err, net.ErrClosed) {
 					err = io.ErrClosedPipe
 				}
+				// Close the client before reporting the failure: once the sender knows about
+				// it, the next call must find the connection broken and dial a fresh one.
+				_ = c.terminate(err)
 				req.err <- err
 				close(req.err)
-				// Close the client
-				_ = c.terminate(err)
 				return
 			}
 			close(req.err)
